@@ -38,6 +38,90 @@ def bswap_width(s):
     return int(s.op[5:])
 
 
+_SWAP_OPS = ('cast', '|', '&', '<<', '>>')
+
+
+def _sym_eval(e, leaf, x):
+    """value of a shift/mask/or expression over one leaf (None if anything else occurs)"""
+    if isinstance(e, int):
+        return e
+    if not is_sym(e):
+        return None
+    if e == leaf:
+        return x
+    if e.op == 'cast':
+        v = _sym_eval(e.args[0], leaf, x)
+        ti = ct.tinfo(e.ctype) if e.ctype else ('other',)
+        if v is None or ti[0] != 'int':
+            return None
+        v &= (1 << ti[1]) - 1
+        if ti[2] and v >> (ti[1] - 1):
+            v -= 1 << ti[1]
+        return v
+    if e.op in ('|', '&', '<<', '>>') and len(e.args) == 2:
+        a, b = _sym_eval(e.args[0], leaf, x), _sym_eval(e.args[1], leaf, x)
+        if a is None or b is None:
+            return None
+        if e.op in ('<<', '>>') and not 0 <= b < 64:
+            return None
+        v = {'|': a | b, '&': a & b, '<<': a << b, '>>': a >> b}[e.op]
+        ti = ct.tinfo(e.ctype) if e.ctype else ('other',)
+        if ti[0] == 'int':
+            v &= (1 << ti[1]) - 1
+        return v
+    return None
+
+
+def normalize_swaps(v, found=None):
+    """rewrite open-coded byte reversals ((U16)((x >> 8) | (x << 8)) and the 32/64-bit analogues) of a W-bit value into bswapW(x):
+    a cast to an unsigned W-bit type whose operand is built from one leaf by shifts, masks and ors only, and that equals the byte
+    reversal on 0, on all ones and on every single-bit value of the leaf (these operators distribute over bitwise or)"""
+    if not is_sym(v):
+        return v
+    if v.op == 'cast' and v.ctype and ct.tinfo(v.ctype)[0] == 'int' and ct.tinfo(v.ctype)[1] in (16, 32, 64) and not ct.tinfo(v.ctype)[2]:
+        W = ct.tinfo(v.ctype)[1]
+        inner = v.args[0]
+        if is_sym(inner) and inner.op == '|':
+            # candidate "value being reversed": a subterm narrowed to at most W unsigned bits, or an atom; largest first
+            cands = []
+            for x in pe.sym_walk(inner):
+                if not is_sym(x) or x is inner:
+                    continue
+                ti = ct.tinfo(x.ctype) if x.ctype else ('other',)
+                if ti[0] == 'int' and ti[1] <= W and (x.op not in _SWAP_OPS or (x.op == 'cast' and not ti[2])):
+                    cands.append(x)
+            seen_c = []
+            for c_ in sorted(cands, key=lambda x: -len(repr(x))):
+                if any(c_ == y for y in seen_c):
+                    continue
+                seen_c.append(c_)
+
+                def only(e, leaf=c_):
+                    if isinstance(e, int):
+                        return True
+                    if not is_sym(e):
+                        return False
+                    if e == leaf:
+                        return True
+                    if e.op in _SWAP_OPS and (e.op == 'cast' or len(e.args) == 2):
+                        return all(only(a) for a in e.args)
+                    return False
+                if not only(inner):
+                    continue
+                LW = ct.tinfo(c_.ctype)[1]
+                basis = [0, (1 << LW) - 1] + [1 << i for i in range(LW)]
+
+                def bsw(x):
+                    return int.from_bytes((x & ((1 << W) - 1)).to_bytes(W // 8, 'little'), 'big')
+                if all(_sym_eval(v, c_, x) == bsw(x) for x in basis):
+                    if found is not None:
+                        found.append(W)
+                    return pe.Sym('bswap%d' % W, (normalize_swaps(c_, found),), v.ctype)
+    if v.args and any(is_sym(a) for a in v.args):
+        return pe.Sym(v.op, tuple(normalize_swaps(a, found) if is_sym(a) else a for a in v.args), v.ctype)
+    return v
+
+
 def template_callees(chk):
     """runtime function called by each access row's template (from the emitters, not from a naming scheme)"""
     import re
@@ -73,6 +157,8 @@ def check_function(chk, htu, row, cfg, callees):
     for p in summ['paths']:
         ev = p.events
         swaps = [e for e in ev if e[0] == 'bswap']
+        open_coded = []
+        p.ret = normalize_swaps(p.ret, open_coded)
         # value read from memory
         if cls in ('load', 'atomic.load', 'atomic.rmw', 'atomic.cmpxchg'):
             rs = bswaps(p.ret)
@@ -111,6 +197,7 @@ def check_function(chk, htu, row, cfg, callees):
             if cls != 'atomic.cmpxchg' and not written:
                 probs.append('no store to linear memory on path %s' % p.cond_text())
             for val, ti in written:
+                val = normalize_swaps(val, open_coded)
                 top = pe.strip_casts(val)
                 if ti[1] != access:
                     probs.append('stores %r bits, the access width is %d' % (ti[1], access))
@@ -145,7 +232,7 @@ def check_function(chk, htu, row, cfg, callees):
                 lo, hi = names.index('lock'), len(names) - 1 - names[::-1].index('unlock')
                 if names.count('lock') != 1 or names.count('unlock') != 1 or any(i < lo or i > hi for i in touches):
                     probs.append('memory is touched outside the single lock region (events %r)' % names)
-        if cls in ('load', 'store') and access > 8 and len(swaps) != 1:
+        if cls in ('load', 'store') and access > 8 and len(swaps) + len(open_coded) != 1:
             probs.append('%d byte reversals on the path, expected one' % len(swaps))
     for pr in probs:
         chk.fail('R19.1', '%s@%s' % (row['name'], cfg), '%s: %s' % (fn, pr), site)
